@@ -1174,3 +1174,48 @@ Proof.
   intros s Hs. rewrite Hfree in Hs. apply elem_of_list_to_set in Hs. rewrite (Hag s Hs).
   symmetry. by apply (proj1 (eq_on_spec free v a) Heq).
 Qed.
+
+
+(* ================================================================================================ *)
+(* 17. the three API calls of the flip step have the closed form of the flipped-node lemma             *)
+Lemma disconnect_all (g : circuit) (us : list string) x i :
+  g !! x = Some i → disconnect_g g us [x] = <[x := upd_fi (λ s, s ∖ list_to_set us) i]> g.
+Proof.
+  unfold disconnect_g. revert g i. induction us as [|u us IH]; intros g i Hx.
+  - simpl. rewrite insert_id; [done|]. rewrite Hx. f_equal. destruct i; unfold upd_fi; simpl. f_equal. set_solver.
+  - change (pairs (u :: us) [x]) with ((u, x) :: pairs us [x]). cbn [foldl]. simpl (del_edge g _ _).
+    unfold del_edge at 2. simpl.
+    rewrite (IH (alter (upd_fi (λ s, s ∖ {[u]})) x g) (upd_fi (λ s, s ∖ {[u]}) i)) by (by rewrite lookup_alter, Hx).
+    apply map_eq. intros y. destruct (decide (y = x)) as [->|Hne].
+    + rewrite !lookup_insert. f_equal. destruct i; unfold upd_fi; simpl. f_equal. set_solver.
+    + rewrite !lookup_insert_ne by done. by rewrite lookup_alter_ne.
+Qed.
+
+Theorem flip_node_closed_form (g : circuit) n i j :
+  g !! pre "c1" n = Some i → g !! pre "c0" n = Some j → n_ty j ≠ BbIn → n_ty j ≠ BbOut →
+  flip_node g n = Ok (<[pre "c1" n := mk_node Not (n_out i) {[pre "c0" n]}]> g).
+Proof.
+  intros Hi Hj Hb1 Hb2. unfold flip_node. rewrite Hi.
+  assert (Hne : pre "c0" n ≠ pre "c1" n) by (unfold pre; intros [=]).
+  rewrite (disconnect_all g _ _ i Hi).
+  set (i1 := upd_fi (λ s, s ∖ list_to_set (elements (fanin g (pre "c1" n)))) i).
+  assert (Hfi1 : n_fi i1 = ∅).
+  { unfold i1, fanin. rewrite Hi. simpl. apply set_eq. intros f. rewrite elem_of_difference, elem_of_list_to_set, elem_of_elements. set_solver. }
+  unfold set_type_g. simpl (bool_decide (Not ∈ addable_types)). simpl (negb true). cbn [foldl].
+  rewrite lookup_insert. cbn [lift].
+  set (g2 := <[pre "c1" n := retype Not i1]> (<[pre "c1" n := i1]> g)).
+  assert (H2 : g2 !! pre "c1" n = Some (retype Not i1)) by (unfold g2; by rewrite lookup_insert).
+  assert (H0 : g2 !! pre "c0" n = Some j) by (unfold g2; by rewrite !lookup_insert_ne).
+  unfold connect_g. simpl (bool_decide ([pre "c0" n] = [])). simpl (bool_decide ([pre "c1" n] = [])). cbn [orb].
+  assert (Hd : forallb (λ x, bool_decide (x ∈ dom g2)) ([pre "c0" n] ++ [pre "c1" n]) = true).
+  { simpl. rewrite !bool_decide_eq_true_2; [done|apply elem_of_dom; eauto|apply elem_of_dom; eauto]. }
+  rewrite Hd. cbn [negb].
+  assert (Hc : connect_check g2 [pre "c0" n] [pre "c1" n] = true).
+  { unfold connect_check. simpl. unfold ty, fanin. rewrite H2, H0. simpl. change (n_fi i ∖ list_to_set (elements (fanin g (pre "c1" n)))) with (n_fi i1). rewrite Hfi1, size_empty. simpl.
+    destruct (n_ty j); try done. }
+  rewrite Hc. cbn [negb lift]. f_equal. simpl. unfold add_edge, g2.
+  apply map_eq. intros y. destruct (decide (y = pre "c1" n)) as [->|Hy].
+  - rewrite lookup_alter, !lookup_insert. simpl. f_equal. unfold upd_fi, retype, mk_node. cbn [n_ty n_out n_fi]. rewrite Hfi1.
+    f_equal. set_solver.
+  - rewrite lookup_alter_ne, !lookup_insert_ne by done. done.
+Qed.
